@@ -10,7 +10,7 @@ from .. import units as U
 from ..symx import alg_equal
 from .. import ispace as I
 from .C05 import solver as solver_index_spaces, driver_typestate, orders
-from .C14 import per_mode, ViewedCheck, flat_view, flat_function, env_of, mode_loop, _stmt_of, _block_of, _own_exprs
+from .C14 import per_mode, ViewedCheck, flat_view, flat_function, env_of, mode_loop, _stmt_of, _block_of, _own_exprs, copy_store
 
 QN = "QuasiNeutralitySolver"
 DES = "DiffEqSolver"
@@ -134,7 +134,13 @@ def transforms(chk):
             # where the transformed line comes from and where the result goes
             line = env.x(c.args[0], use=st) if c.args else None
             store = None
-            if isinstance(st, ast.Assign) and isinstance(st.targets[0], ast.Subscript) and st.value is c:
+            cp = copy_store(st) if isinstance(st, ast.Expr) else None
+            if cp is not None and cp[1] is c:
+                # np.copyto(line, fft(line)) is the slice assignment line[:] = fft(line)
+                store = ast.Assign(targets=[cp[0]], value=c)
+                ast.copy_location(store, st)
+                store._use = st
+            elif isinstance(st, ast.Assign) and isinstance(st.targets[0], ast.Subscript) and st.value is c:
                 store = st
             elif isinstance(st, ast.Assign) and isinstance(st.targets[0], ast.Name) and st.value is c:
                 nm = st.targets[0].id
@@ -151,7 +157,7 @@ def transforms(chk):
                 p_ = parent(p_)
             shape = None          # how the lines are enumerated
             if store is not None and line is not None:
-                tgt = env.x(store.targets[0].value, use=store)
+                tgt = env.x(store.targets[0].value, use=getattr(store, "_use", store))
                 whole = src(store.targets[0].slice).replace(" ", "") in (":", "...")
                 if whole and len(loops) == 2:
                     its = [env.x(l_.iter) for l_ in loops[::-1]]
@@ -191,7 +197,8 @@ def transforms(chk):
                 bad = f"the line is taken with the (r, z) indices exchanged (`{src(line)}`)"
             elif shape == "mismatch":
                 bad = f"the transform of `{src(line)}` is written to a different line `{src(tgt)}`"
-            elif store is None and isinstance(st, (ast.Expr, ast.Assign)) and (isinstance(st, ast.Expr) or (
+            elif store is None and isinstance(st, (ast.Expr, ast.Assign)) and ((isinstance(st, ast.Expr) and st.value is c) or (
+                    isinstance(st, ast.Assign) and st.value is c and
                     isinstance(st.targets[0], ast.Name) and not any(isinstance(n, ast.Name) and n.id == st.targets[0].id and
                                                                     isinstance(n.ctx, ast.Load) for n in ast.walk(fn)))):
                 bad = (f"the result of `{f}` is never written back to the grid (overwrite_x only permits, it does not guarantee, "
@@ -222,7 +229,11 @@ def _numeric_modes(text):
     except Exception:
         return None
     allowed_funcs = {"np.fft.fftfreq", "numpy.fft.fftfreq", "np.arange", "numpy.arange", "np.round", "np.rint", "numpy.round", "numpy.rint",
-                     "float", "int"}
+                     "float", "int",
+                     # reorderings between the centred order (-n/2 .. n/2) and the transform's order: the two shifts are the same
+                     # permutation only for an even number of points, so they are evaluated for both parities, never assumed equal
+                     "np.fft.fftshift", "numpy.fft.fftshift", "np.fft.ifftshift", "numpy.fft.ifftshift", "np.roll", "numpy.roll",
+                     "np.concatenate", "numpy.concatenate", "np.array", "np.asarray", "numpy.array", "numpy.asarray"}
     try:
         tree = ast.parse(text, mode="eval")
     except SyntaxError:
@@ -238,12 +249,26 @@ def _numeric_modes(text):
             return None
     try:
         code = compile(tree, "<modes>", "eval")
+        first, wrong_n = None, []
         for n in range(1, 17):
             got = np.asarray(eval(code, {"__builtins__": {}}, {"np": np, "numpy": np, "nTheta": n, "float": float, "int": int, "complex": complex}))
             want = np.fft.fftfreq(n, 1 / n)
             if got.shape != want.shape or not np.allclose(got, want, rtol=0, atol=1e-9):
-                return False, (f"for nTheta={n} the mode numbers are {np.round(got, 3).tolist() if got.size <= 8 else str(np.round(got, 3).tolist())[:60]} "
-                               f"instead of the transform's numbering {want.tolist() if want.size <= 8 else str(want.tolist())[:60]}")
+                wrong_n.append(n)
+                if first is None or (n >= 3 and first[0] < 3):
+                    first = (n, got, want)
+        if first is not None:
+            n, got, want = first
+            parity = ""
+            if all(k % 2 == 1 for k in wrong_n) and len(wrong_n) >= 7:
+                parity = " (every odd nTheta is affected, the even ones are not)"
+            elif all(k % 2 == 0 for k in wrong_n) and len(wrong_n) >= 7:
+                parity = " (every even nTheta is affected, the odd ones are not)"
+            if "fftshift(" in text and "ifftshift(" not in text and parity:
+                parity += ("; np.fft.fftshift takes the transform's order to the centred order, the way back is np.fft.ifftshift: the two are "
+                           "the same permutation only for an even number of points")
+            return False, (f"for nTheta={n} the mode numbers are {np.round(got, 3).tolist() if got.size <= 8 else str(np.round(got, 3).tolist())[:60]} "
+                           f"instead of the transform's numbering {want.tolist() if want.size <= 8 else str(want.tolist())[:60]}{parity}")
         return True
     except Exception:
         return None
@@ -257,7 +282,10 @@ def mode_numbers(chk):
     defs = [n for n in fn.body if isinstance(n, ast.Assign) and src(n.targets[0]) == "self._mVals"]
     if len(defs) != 1:
         raise AnalysisError("C15: definition of self._mVals not found")
-    v = defs[0].value
+    # the numbering is that of the base of an elementwise power (`fftfreq(...) ** 2`: which power the table holds is the business of
+    # the mode-table analysis of C14, F4-mode-bookkeeping / F4-mode-power)
+    from .C14 import strip_power
+    v, _ = strip_power(defs[0].value)
     # in-place modifications of the table (other than the squaring of the whole table) or of the local it is built from
     base = "self._mVals"
     inner = v
@@ -277,7 +305,9 @@ def mode_numbers(chk):
     mods = [n for n in mods if id(n) not in powered]
     if not mods:
         ex = env.x(v, use=defs[0])
-        res = _numeric_modes(src(ex)) if not env.amb else None
+        amb_ = set(env.amb)
+        ex, _ = strip_power(ex)
+        res = _numeric_modes(src(ex)) if not amb_ else None
         if res is True:
             chk.ob("F5-mode-numbers", defs[0], src(defs[0]), True,
                    "mode numbers are the integer frequencies in the transform's own output order (0..,-..-1), for even and odd counts "
@@ -530,6 +560,15 @@ def m0_operator(chk):
     for case, d in last.items():
         tag, w = CASES[case]
         val = env.x(d.value, stop={"chi"}, use=d)
+        # dispatch through a table with literal keys, {0: A, 1: B}[chi]: the entry of the value of chi at hand
+        if isinstance(val, ast.Subscript) and isinstance(val.value, ast.Dict) and src(val.slice) == "chi" and case[1] is not None and \
+                all(isinstance(k_, ast.Constant) for k_ in val.value.keys):
+            hit = [v_ for k_, v_ in zip(val.value.keys, val.value.values) if k_.value == case[1] and not isinstance(k_.value, bool)]
+            if len(hit) == 1:
+                val = hit[0]
+        elif isinstance(val, ast.Subscript) and isinstance(val.value, (ast.Tuple, ast.List)) and src(val.slice) == "chi" and \
+                case[1] is not None and case[1] < len(val.value.elts):
+            val = val.value.elts[case[1]]
         try:
             got = vec(val, case[1])
             ok = got == w
@@ -543,7 +582,10 @@ def m0_operator(chk):
             chk.ob("F5-m0-convention", d, f"m=0 operator for {tag}: {src(d.value)[:60]}", None,
                    f"not a combination of the assembled blocks ({e})", file=U.POISSON, func=f"{QN}.__init__")
     raises = any(isinstance(n, ast.Raise) and "chi" in src(n) for n in ast.walk(fn)) or \
-        any(isinstance(n, ast.Assert) and "chi" in src(n.test) and ("0" in src(n.test) and "1" in src(n.test)) for n in ast.walk(fn))
+        any(isinstance(n, ast.Assert) and "chi" in src(n.test) and ("0" in src(n.test) and "1" in src(n.test)) for n in ast.walk(fn)) or \
+        any(isinstance(n, ast.Raise) and isinstance(parent(n), ast.If) and "chi" in src(parent(n).test) for n in ast.walk(fn)) or \
+        any(isinstance(n, ast.Subscript) and isinstance(n.value, ast.Dict) and src(n.slice) == "chi" and
+            sorted(k_.value for k_ in n.value.keys if isinstance(k_, ast.Constant)) == [0, 1] for n in ast.walk(fn))
     need = {t_ for t_, _ in CASES.values()}
     okc = need <= covered and raises and "self._PhiPsi" in stiff
     bad = None
@@ -775,6 +817,13 @@ def m0_selection(chk):
             if not isinstance(n, ast.If):
                 continue
             t = env.x(n.test, use=n)
+            # `self._stiffness0 is not None and <m == 0>`: the branch of a solver whose sub-class provided an m = 0 operator; for the
+            # quasi-neutrality solver (which always defines it) the test is the m = 0 test alone
+            if isinstance(t, ast.BoolOp) and isinstance(t.op, ast.And):
+                rest_ = [v_ for v_ in t.values if not (isinstance(v_, ast.Compare) and len(v_.ops) == 1 and isinstance(v_.ops[0], ast.IsNot)
+                                                      and src(v_.left) == "self._stiffness0" and src(v_.comparators[0]) == "None")]
+                if len(rest_) == 1 and len(t.values) == 2:
+                    t = rest_[0]
             if not (isinstance(t, ast.Compare) and len(t.ops) == 1 and isinstance(t.ops[0], (ast.Eq, ast.NotEq))):
                 continue
             sides = [src(t.left).replace(" ", ""), src(t.comparators[0]).replace(" ", "")]
